@@ -36,12 +36,16 @@ BB = 1 << 128
 BBB = 1 << 192
 M64 = B - 1
 
-# Finding D1 (see REPORT.md): div_nxm_normalized under its *documented* conditions of use.
-SUSPECT = [
-    # top limbs of the numerator equal the divisor: no debug_assert fires, remainder == divisor
+# Finding D1 (repaired in /repo, commit 233680d): div_nxm_normalized documented weaker conditions
+# of use than the algorithm needs.  The former witnesses are kept as regressions: they now violate
+# the (new) debug_asserts -> the debug profile must panic, the model says DebugPanic.
+D1_REGRESSIONS = [
+    # top limbs of the numerator equal the divisor (used to return remainder == divisor silently)
     "div_nxm_normalized 192 L:0,0,8000000000000000 L:0,8000000000000000",
-    # numerator.len() == divisor.len(): `numerator.len() - n - 1` underflows
+    # numerator.len() == divisor.len() (`numerator.len() - n - 1` used to underflow)
     "div_nxm_normalized 128 L:1,8000000000000000 L:0,8000000000000000",
+    # top limbs of the numerator above the divisor
+    "div_nxm_normalized 192 L:5,7,8000000000000009 L:0,8000000000000000",
 ]
 
 
@@ -196,12 +200,9 @@ def c_div(bits, n, d):
 
 
 def nxm_norm_ok(n, d):
-    """not in the D1 gap: either the documented precondition fails (debug panic expected) or
-    the implicit one holds as well"""
-    doc = len(d) >= 2 and len(n) >= len(d) and d[-1] >= (1 << 63)
-    if not doc:
-        return True
-    return len(n) > len(d) and ev(n[len(n) - len(d):]) < ev(d)
+    """the documented conditions of use of div_nxm_normalized hold"""
+    return (len(d) >= 2 and len(n) > len(d) and d[-1] >= (1 << 63)
+            and ev(n[len(n) - len(d):]) < ev(d))
 
 
 def slice_cases(rng, bits, ln, ld, out, reps=1):
@@ -218,11 +219,11 @@ def slice_cases(rng, bits, ln, ld, out, reps=1):
             d = rand_divisor(rng, ld)
             d[-1] |= 1 << 63
             n = rand_numerator(rng, ln, d)
-            if not nxm_norm_ok(n, d):
+            if not nxm_norm_ok(n, d) and rng.random() < 0.85:
                 # make the top limbs smaller than the divisor: clear the top limb
+                # (the rest keeps the precondition violated: debug_assert must fire)
                 n[-1] = 0
-            if nxm_norm_ok(n, d):
-                out.append("div_nxm_normalized %d %s %s" % (bits, L(n), L(d)))
+            out.append("div_nxm_normalized %d %s %s" % (bits, L(n), L(d)))
 
 
 def small_cases(rng, bits, ln, out):
@@ -405,8 +406,9 @@ def corpus():
                 for N in (D, D - 1, D + 1, B ** ln - 1, D * (B ** (ln - ld)), D * (B ** (ln - ld)) - 1):
                     if 0 <= N < B ** ln:
                         out.append(c_div(64 * ln, tl(N, ln), dv))
+    out += D1_REGRESSIONS
     out += directed()
-    return [x for x in out if x not in SUSPECT]
+    return out
 
 
 def gen(rng, tier):
@@ -435,7 +437,7 @@ def gen(rng, tier):
             small_cases(rng, 64 * ln, ln, out)
     for _ in range(100 * reps):
         scalar_cases(rng, 64, out)
-    return [x for x in out if x not in SUSPECT]
+    return out
 
 
 def nontrivial(line):
